@@ -40,7 +40,7 @@ pub mod c08;
 pub mod c10;
 #[cfg(feature = "c11")]
 pub mod c11;
-#[cfg(feature = "c13")]
+#[cfg(any(feature = "c13", feature = "c03", feature = "c08"))]
 pub mod c13;
 #[cfg(feature = "c14")]
 pub mod c14;
@@ -74,7 +74,7 @@ pub fn registry() -> Vec<(&'static str, fn(&mut src::Tape))> {
     v.extend_from_slice(c10::ALL);
     #[cfg(feature = "c11")]
     v.extend_from_slice(c11::ALL);
-    #[cfg(feature = "c13")]
+    #[cfg(any(feature = "c13", feature = "c03", feature = "c08"))]
     v.extend_from_slice(c13::ALL);
     #[cfg(feature = "c14")]
     v.extend_from_slice(c14::ALL);
